@@ -272,11 +272,14 @@ pub fn shrink(
     let mut cur = plan.clone();
     let mut fp = reproduces(scn, &cur, rule).unwrap_or(0);
     let mut runs = 1;
+    // minimisation is a convenience: it also stops after 40 s of wall clock
+    // (the result is whatever had been reached; replay does not depend on it)
+    let started = std::time::Instant::now();
     'outer: loop {
         let mut cands = candidates(&cur);
         cands.extend(work_value_candidates(&cur));
         for cand in cands {
-            if runs >= budget {
+            if runs >= budget || started.elapsed().as_secs() >= 40 {
                 break 'outer;
             }
             runs += 1;
